@@ -308,7 +308,7 @@ var profC01 = Profile{
 // atomicState checks one file-system state against the atomicity property.
 // started/finished: task keys with a start / exit(0) event so far (by journal
 // position), appearance: journal entries that made a final path appear.
-func atomicState(root, start *simrt.Inode, ex *Expect, done map[string]bool, what string) Verdict {
+func atomicState(root, start *simrt.Inode, ex *Expect, done map[string]bool, what string, anyContent ...map[*RTask]bool) Verdict {
 	files := WorkFiles(root)
 	startFiles := WorkFiles(start)
 	var paths []string
@@ -332,6 +332,12 @@ func atomicState(root, start *simrt.Inode, ex *Expect, done map[string]bool, wha
 			want := owner.Content[portOf(owner, p)]
 			if !done[owner.Key] {
 				return Viol("output-before-success", sigCustom(owner), "%s: %s exists at its final path although no command of task %s has finished successfully (content %q)", what, p, owner.Key, clip(e.Data))
+			}
+			if len(anyContent) > 0 && anyContent[0][owner] {
+				// the task read a STREAM whose producer was made to fail half-way: its
+				// own command finished successfully on what it got; which bytes those
+				// were is not this property's business
+				continue
 			}
 			if string(e.Data) != string(want) {
 				return Viol("partial-output-visible", sigCustom(owner), "%s: %s at its final path holds %q, the complete output is %q", what, p, clip(e.Data), clip(want))
@@ -389,6 +395,15 @@ func init() {
 				w = sameNameWF(c)
 			case 2:
 				return splitterAtomicCase(c)
+			case 3:
+				// a streaming pair; in half of the cases the consumer reads only the
+				// beginning of the stream and closes it (head -c): a producer that still
+				// has more to write than the pipe holds dies of SIGPIPE - possibly after it
+				// has written its ordinary output completely
+				w = streamWF(c)
+				if c.Tape.Choose(simrt.StFault, 2, 0) == 1 {
+					earlyClose(c, w)
+				}
 			default:
 				w = Generate(c.Tape, crashTierProfile(profC01, c.Tier))
 			}
@@ -486,10 +501,24 @@ func init() {
 				}
 				tr = tr2
 			}
+			// consumers (and their descendants) of a streamed output of a failing task
+			streamFed := map[*RTask]bool{}
+			if len(ex.StreamPaths) > 0 {
+				for _, f := range []*FaultSpec{fault, fault2} {
+					if f == nil {
+						continue
+					}
+					for _, t := range ex.ByKey[f.Key] {
+						for d := range dependents(ex, t) {
+							streamFed[d] = true
+						}
+					}
+				}
+			}
 			for _, sn := range inc.Snaps {
 				c.CrashStates++
 				c.Fault("kill@state")
-				if v := atomicState(sn.Root, inc.StartFS, ex, doneAt(tr, sn.JSeq), fmt.Sprintf("killed after fs operation #%d (%s %s %s, step %d)", sn.JSeq, sn.Entry.Op, sn.Entry.Path, sn.Entry.Path2, sn.Step)); v.Status != "ok" {
+				if v := atomicState(sn.Root, inc.StartFS, ex, doneAt(tr, sn.JSeq), fmt.Sprintf("killed after fs operation #%d (%s %s %s, step %d)", sn.JSeq, sn.Entry.Op, sn.Entry.Path, sn.Entry.Path2, sn.Step), streamFed); v.Status != "ok" {
 					return v
 				}
 				if len(sn.Running) > 0 {
@@ -497,11 +526,27 @@ func init() {
 				}
 			}
 			// final state (after failure or completion)
-			if v := atomicState(inc.Sim.FS.Root, inc.StartFS, ex, doneAt(tr, 1<<30), "after the program ended ("+inc.Sim.End.String()+")"); v.Status != "ok" {
+			if v := atomicState(inc.Sim.FS.Root, inc.StartFS, ex, doneAt(tr, 1<<30), "after the program ended ("+inc.Sim.End.String()+")", streamFed); v.Status != "ok" {
 				return v
 			}
 			return OK()
 		}})
+}
+
+// earlyClose makes every consumer of a streamed output read only the first
+// few bytes and gives the producer a payload beyond pipe capacity + that.
+func earlyClose(c *Case, w *WF) {
+	head := 4 + 8*c.Tape.Choose(simrt.StFault, 3, 0)
+	for i := range w.Nodes {
+		n := &w.Nodes[i]
+		if n.Name == "prod" {
+			n.PadTo = 400 + 100*c.Tape.Choose(simrt.StFault, 3, 0)
+		}
+		if n.Name == "cons" || n.Name == "cons2" {
+			n.Head = head
+		}
+	}
+	c.Fault("reader-closes-early")
 }
 
 // splitterAtomicCase: FileSplitter finalizes its parts one by one while it goes
@@ -596,7 +641,8 @@ func sameNameWF(c *Case) *WF {
 var profC03 = Profile{
 	MaxProcs: 3, MaxItems: 2, Bufsizes: []int{0, 1, 2}, MaxSlots: 3,
 	Params: true, MultiOut: true, FanIn: true, FanOut: true,
-	Subdirs: true, ParentAbs: true, Extras: true, Cores: true, Zip: true, EmptyOuts: true, Joins: true,
+	// (outputs on the second file system always fail to be finalized - C01's business - so none here)
+	Subdirs: true, ParentAbs: true, NoOtherDevice: true, Extras: true, Cores: true, Zip: true, EmptyOuts: true, Joins: true,
 }
 
 // finalBefore: declared outputs that are already final (present) in a tree.
@@ -841,9 +887,54 @@ func init() {
 			}
 			ex := Eval(w)
 			c.Sample = "crash/cleanup/re-run at every crash state: " + sample(w)
-			inc := RunInc(w, c.Tape, nil, 0, IncOpts{KillAt: -1, Strategy: strategyOf(c.Tape), Trace: c.Trace, Snapshots: true})
+			var root0 *simrt.Inode
+			nextIno0 := 0
+			if len(ex.StreamPaths) == 0 && c.Tape.Choose(simrt.StGen, 4, 0) == 1 {
+				// the crashing run is itself a re-run: an earlier run completed, then the
+				// user deleted some results to have them re-made - but only the data files,
+				// their .audit.json files are still there (orphans) when the run is killed
+				inc0 := RunInc(w, c.Tape, nil, 0, IncOpts{KillAt: -1, Strategy: strategyOf(c.Tape), Trace: c.Trace})
+				c.Absorb(inc0)
+				if v := flowOracle(inc0, ex); v.Status != "ok" {
+					if v.Status == "violation" {
+						return Skipped(v)
+					}
+					return v
+				}
+				root0 = inc0.Sim.FS.Snapshot()
+				nextIno0 = inc0.Sim.FS.NextIno
+				n := 0
+				for _, t := range ex.Tasks {
+					if len(t.Outs) == 0 || c.Tape.Choose(simrt.StGen, 2, 0) == 1 {
+						continue
+					}
+					for _, p := range t.Outs {
+						ap := Abs(p)
+						if dir := simrt.Find(root0, ap[:strings.LastIndex(ap, "/")]); dir != nil {
+							delete(dir.Ents, baseName(ap))
+							n++
+						}
+					}
+				}
+				if n > 0 {
+					c.Fault("orphan-audit-files")
+					c.Sample = "results deleted, their audit files kept; " + c.Sample
+				}
+			}
+			inc := RunInc(w, c.Tape, root0, nextIno0, IncOpts{KillAt: -1, Strategy: strategyOf(c.Tape), Trace: c.Trace, Snapshots: true})
 			c.Absorb(inc)
-			if v := flowOracle(inc, ex); v.Status != "ok" {
+			if root0 != nil {
+				// (tasks whose results were kept are rightly not executed again)
+				if v, ok := inconclusiveEnd(inc); ok {
+					return v
+				}
+				if !completedOK(inc) {
+					return Skipped(Viol("no-completion", "", "the uninterrupted re-run does not complete: %s", endDesc(inc)))
+				}
+				if cl, d := checkFinalFiles(inc.Sim.FS.Root, ex, false); cl != "" {
+					return Skipped(Viol(cl, "", "uninterrupted re-run: %s", d))
+				}
+			} else if v := flowOracle(inc, ex); v.Status != "ok" {
 				if v.Status == "violation" {
 					return Skipped(v) // the uninterrupted run itself is wrong: not this property's business
 				}
